@@ -19,6 +19,7 @@ func init() {
 			"PF-NILCLOSE; ERR-PROP of the open chain (a swallowed failure leaves a nil reader that is dereferenced later)",
 			"the distinct rule (the stage works on allocated state)",
 			"PF-NIL pcommon.Map methods on Attrs.AsMap() results only under m != pcommon.Map{}",
+			"PV-PAIR binOpIterator.Next combines only matched pairs",
 		},
 		NotDecided: []string{
 			"termination of loops (lexer scanners, IPLineFilter, stepper – the last relies on C16's positivity for CLI callers)",
@@ -47,6 +48,7 @@ func init() {
 			rulePFDeferNil(r, []string{enginePkg, metricPkg, dockerlogPkg, cmdPkg})
 			ruleDistinct(r) // the stage works on its own, allocated state
 			ruleAttrMapZeroGuard(r)
+			ruleBinOpPairsMatched(r) // an unmatched series is never combined with a zero sample (nil label set)
 		},
 	})
 }
